@@ -156,6 +156,8 @@ class World:
             for k, (n, _v) in enumerate(spec["script"]):
                 self.assign(tidx, NAMES[n], self.script_vals[wid][k], scripted=wid)
             self.trace.append(("exit", wid))
+            if spec.get("raise_skip"):
+                raise param.Skip        # documented way for a callback to say "nothing to do": must not disturb anyone else
 
         if spec["mode"] == "kwargs":
             def cb(**kw):
